@@ -55,6 +55,7 @@ fn main() {
         "keys" => extra = comp::suite_keys(&mut rng, cases, &mut t),
         "ticker" => extra = cachesuite::suite_ticker(&mut t),
         "defaults" => extra = cachesuite::suite_defaults(&mut t),
+        "stress" => extra = cachesuite::suite_stress(&mut t, seed, cases),
         "replay" => {
             let f = arg(&args, "--in").expect("--in FILE");
             let txt = std::fs::read_to_string(f).unwrap_or_default();
